@@ -265,10 +265,17 @@ func (a *opAdapter) Deploy(ctx context.Context, req *workerpb.DeployOperatorRequ
 	}()
 	return a.real.HandleDeploy(ctx, req, &embedded.RecordingSink{})
 }
-func (a *opAdapter) NeedsTable(ctx context.Context, fileURI string) (bool, error) {
-	if a.real == nil {
+func (a *opAdapter) NeedsTable(ctx context.Context, fileURI string) (needs bool, err error) {
+	// asked by table clean-ups on the garbage collector's goroutine; an operator that has not opened its database
+	// yet (or is from an earlier generation) answers like an unreachable node: "keep the file"
+	if a.real == nil || a.real.VerifDKV() == nil {
 		return true, nil
 	}
+	defer func() {
+		if p := recover(); p != nil {
+			needs, err = true, fmt.Errorf("NeedsTable panicked: %v", p)
+		}
+	}()
 	return a.real.HandleNeedsTable(fileURI), nil
 }
 func (a *opAdapter) UpdateRetainedCheckpoints(ctx context.Context, ids []uint64) error {
